@@ -389,6 +389,14 @@ def coq_ty(spec, reg):
 
 
 # --------------------------------------------------------------------------- reference encoder (C03)
+def spec_has(spec, flag):
+    if isinstance(spec, dict):
+        return bool(spec.get(flag)) or any(spec_has(v, flag) for v in spec.values())
+    if isinstance(spec, list):
+        return any(spec_has(v, flag) for v in spec)
+    return False
+
+
 def eff_tag(spec):
     """explicit Meta.tag, or the class name under auto_assign_tags for a Union member"""
     if spec.get('tag') is not None:
